@@ -4,6 +4,8 @@ import SamlModel.Lib.Base64
 import SamlModel.Lib.XmlEscape
 import SamlModel.Lib.HtmlTok
 import SamlModel.Generated.Facts
+import SamlModel.Lib.Utf8
+import SamlModel.Lib.XmlMarshal
 /-!
   `lib <fn> <args>`: the hand-written library models (Lib.*) as protocol operations, so that the harness can
   compare each of them with the Go function it stands for (strconv.Atoi, url.QueryEscape, strings.Fields,
@@ -22,6 +24,43 @@ def encForm (f : FormRec) : String :=
   let o (x : Option Bytes) : String := match x with | some b => "+" ++ hexEncode b | none => "-"
   "form " ++ o f.action ++ " " ++ o f.method ++ " " ++ toString f.others ++ " " ++
     " ".intercalate (f.hidden.map fun (n, v) => hexEncode n ++ "=" ++ hexEncode v)
+
+open Lib.Xml Lib.XmlMarshal in
+/-- generic value: `s x<hex>` | `b 0|1` | `i n` | `n` | `r k v…` | `l k v…` -/
+partial def decGVal : List String → Option (GVal × List String)
+  | "s" :: t :: rest => do
+    let (b, _) ← (dec [t] : Option (Bytes × _))
+    pure (.str (Lib.Utf8.goRunes b), rest)
+  | "b" :: "1" :: rest => some (.bool true, rest)
+  | "b" :: "0" :: rest => some (.bool false, rest)
+  | "i" :: n :: rest => n.toInt?.map fun i => (.int i, rest)
+  | "n" :: rest => some (.nil, rest)
+  | "r" :: k :: rest => do
+    let n ← k.toNat?
+    let (vs, rest) ← many n rest
+    pure (.struct vs, rest)
+  | "l" :: k :: rest => do
+    let n ← k.toNat?
+    let (vs, rest) ← many n rest
+    pure (.list vs, rest)
+  | _ => none
+where
+  many : Nat → List String → Option (GVals × List String)
+    | 0, ts => some (.nil, ts)
+    | n + 1, ts => do
+      let (v, ts) ← decGVal ts
+      let (vs, ts) ← many n ts
+      pure (.cons v vs, ts)
+
+open Lib.Xml in
+def encXmlEv : Lib.Xml.Ev → String
+  | .pi => "pi"
+  | .open n => "o:" ++ hexEncode (Lib.Utf8.encode n)
+  | .attr n v => "a:" ++ hexEncode (Lib.Utf8.encode n) ++ ":" ++ hexEncode (Lib.Utf8.encode v)
+  | .openEnd => "e"
+  | .chr c => "t:" ++ hexEncode (Lib.Utf8.encode [c])
+  | .close n => "c:" ++ hexEncode (Lib.Utf8.encode n)
+  | .err => "err"
 
 def run (ts : List String) : Option String :=
   match ts with
@@ -45,6 +84,19 @@ def run (ts : List String) : Option String :=
     let (d, ts) ← (dec ts : Option (Bytes × _))
     if !ts.isEmpty then none else
     pure (" | ".intercalate ((formsOf (tokenize sc d)).map encForm))
+  | "marshal" :: tname :: ts => do
+    let (v, ts) ← decGVal ts
+    if !ts.isEmpty then none else
+    pure (match Lib.XmlMarshal.marshalDoc Gen.Schema.types tname v with
+      | some d => "x" ++ hexEncode (Lib.Utf8.encode d)
+      | none => "unsupported")
+  | ["xmltok", t] => do
+    let (b, _) ← (dec [t] : Option (Bytes × _))
+    let evs := Lib.Xml.tokens (Lib.Utf8.goRunes b)
+    pure (" ".intercalate (evs.map encXmlEv) ++ (if Lib.Xml.wellFormed evs then " WF" else " NOTWF"))
+  | ["xmlescb", t] => do
+    let (b, _) ← (dec [t] : Option (Bytes × _))
+    pure ("x" ++ hexEncode (Lib.Utf8.encode (Lib.escapeChars (Lib.Utf8.goRunes b))))
   | ["attresc", t] => do
     let (v, _) ← (dec [t] : Option (Bytes × _))
     pure ("x" ++ hexEncode (attrEscape v))
